@@ -171,7 +171,11 @@ func runC19(c *config) {
 		return
 	}
 	for mi, m := range c19Modules(c, r) {
-		text := m.String()
+		var text string
+		if oc, msg := guard(func() error { text = m.String(); return nil }); oc != ocOk {
+			o.Fail("never_failing_writer", "", "String() panics: "+msg, map[string]interface{}{"module": mi})
+			continue
+		}
 		L := len(text)
 		rec := &chunkRecorder{}
 		m.WriteTo(rec)
@@ -211,7 +215,11 @@ func runC19(c *config) {
 
 func c19Check(c *config, m *ir.Module, ks []int, sample bool) {
 	o := c.out
-	text := m.String()
+	var text string
+	if oc, msg := guard(func() error { text = m.String(); return nil }); oc != ocOk {
+		o.Fail("never_failing_writer", "", "String() panics: "+msg, map[string]interface{}{})
+		return
+	}
 	L := len(text)
 	rec := &chunkRecorder{}
 	n0, err0 := m.WriteTo(rec)
@@ -232,9 +240,28 @@ func c19Check(c *config, m *ir.Module, ks []int, sample bool) {
 	}
 	var outs []string
 	var kstr []string
-	for _, k := range ks {
+	for ki, k := range ks {
 		w := &failAfter{k: k}
-		n, err := m.WriteTo(w)
+		var n int64
+		var err error
+		if oc, msg := guard(func() error { n, err = m.WriteTo(w); return nil }); oc != ocOk {
+			o.Fail("failing_writer", "", "WriteTo panics with a failing writer: "+msg, map[string]interface{}{"module": text, "k": k})
+			continue
+		}
+		// a call is on its own: after a WriteTo that met a failing writer, the next call with a writer that
+		// never fails (and String()) delivers the whole text again
+		if ki%16 == 0 || ki == len(ks)-1 {
+			good := &rechunk{size: 4096}
+			var n2 int64
+			var err2 error
+			var s2 string
+			oc, msg := guard(func() error { n2, err2 = m.WriteTo(good); s2 = m.String(); return nil })
+			if oc != ocOk || string(good.acc) != text || n2 != int64(L) || err2 != nil || s2 != text {
+				o.Fail("failing_writer", "", "a WriteTo / String() after a call whose writer failed does not deliver the text", map[string]interface{}{"module": text, "k": k, "n": n2, "err": fmt.Sprint(err2), "msg": msg})
+			} else {
+				o.Pass("independent_calls")
+			}
+		}
 		want := k
 		if k > L {
 			want = L
